@@ -275,6 +275,11 @@ class Result:
             'samples': self.samples[:12] or ['(none)'],
         }
         cov.update(self.coverage)
+        if cov.get('obligations', 0) == 0:
+            # no property theorem built for this run (Props module not written yet): fall back to the
+            # generic counts rather than claim zero discharged obligations
+            cov.pop('obligations', None); cov.pop('discharged', None)
+            cov['explanation'] = 'no Lean theorems are registered for this property yet; this run only has the correspondence / oracle part'
         if extra:
             cov.update(extra)
         ev = {'property_id': self.prop, 'tier': self.tier, 'seed': self.seed, 'level': level,
